@@ -163,7 +163,13 @@ def body_reduce(case, ctx):
     if isinstance(g, np.ndarray) and g.ndim:
         raise Violation("reduce:result-kind", f=f, got=got.brief())
     ge, ee = np.asarray(g).item(), np.asarray(exp).item()
-    if f == "mean":
+    if f == "mean" and case.get("wide"):
+        # full-range integers: the reference is the exact rational mean; tolerance = a float64 summation bound, 1e-12 * sum|a| / n
+        ints = [int(v) for v in da]
+        S = sum(abs(v) for v in ints)
+        ctx.label("mean:full-range-ints")
+        ok = abs(float(ge) - sum(ints) / len(ints)) <= 1e-12 * S / len(ints) + 1e-300
+    elif f == "mean":
         fdt = da.dtype if da.dtype.kind == "f" else np.dtype("float64")
         with np.errstate(all="ignore"):
             ok = close(np.asarray(ge, dtype=np.float64).astype(fdt), np.asarray(ee, dtype=np.float64).astype(fdt), 2)
@@ -333,14 +339,19 @@ def reduce_case(draw, tier):
     f = draw(st.sampled_from(["sum", "any", "all", "mean", "max"]))
     # magnitudes keep every partial sum exactly representable in the operand's own dtype (numpy sums float32 in float32)
     mag = (256 if dta.startswith("float") else 2**40) if f in ("sum", "mean") else None
+    wide = f == "mean" and dta in ("int64", "uint64", "int32") and draw(st.integers(0, 2)) == 0
+    if wide:
+        mag = None       # the mean of integers of any magnitude (sum(len * value) does not fit 64 bits)
     ca, va = draw(operand(tier, dta, n, mag=mag))
     derive = draw(st.sampled_from(["none", "none", "gt", "mul0", "self-concat", "abs", "slice"]))
+    if wide:
+        derive = draw(st.sampled_from(["none", "self-concat", "slice"]))
     if dta == "bool" and derive in ("abs",):
         derive = "none"
     if dta.startswith("uint") and derive == "abs":
         derive = "none"
     return {"n": n, "dta": dta, "ca": ca, "va": va, "f": f, "spell": "method" if f == "max" else draw(st.sampled_from(["np", "method"])),
-            "derive": derive}
+            "derive": derive, "wide": wide}
 
 
 @st.composite
